@@ -224,6 +224,9 @@ pub fn cut(text: &str, rng: &mut Rng) -> String {
 
 /// One text: (text, mutation kind, source).
 pub fn gen_text(r: &mut Rng, i: u64, files: &[(String, String)], cfg: &GenCfg) -> (String, &'static str, &'static str) {
+    if i % 20 == 19 {
+        return (skipper_family(r), "skipper_inlining_chain", "template");
+    }
     let (text, kind, source): (String, &'static str, &'static str) = match i % 10 {
             0..=4 if !files.is_empty() => {
                 let (_, t) = r.pick(&files);
@@ -274,4 +277,43 @@ pub fn default_cfg() -> GenCfg {
     cfg.max_count = 12;
     cfg.wild_left_refs_pct = 20;
     cfg
+}
+
+/// Grammars around the skipper's rule inlining: an atomic `(!X ~ ANY)*` whose needle is a chain of
+/// rules made of choices of strings and rule references (possibly recursive, possibly named like
+/// non-keyword built-ins, which a grammar may define).
+pub fn skipper_family(r: &mut Rng) -> String {
+    let pool = ["b", "c", "d", "NEWLINE", "LETTER", "ASCII_DIGIT", "SPACE_SEPARATOR", "ASCII_ALPHA", "eol"];
+    let k = 1 + r.below(3);
+    let mut names: Vec<&str> = vec![];
+    while names.len() < k {
+        let n = *r.pick(&pool);
+        if !names.contains(&n) {
+            names.push(n);
+        }
+    }
+    let mut out = String::new();
+    let needle = match r.below(3) {
+        0 => names[0].to_string(),
+        1 => format!("\"x\" | {}", names[0]),
+        _ => format!("{} | \"y\"", names[0]),
+    };
+    let head_mod = *r.pick(&["@", "@", "@", "$", ""]);
+    out.push_str(&format!("a = {head_mod}{{ (!({needle}) ~ ANY)* ~ \"z\"? }}\n"));
+    for (i, n) in names.iter().enumerate() {
+        let n_alts = 1 + r.below(3);
+        let mut alts: Vec<String> = vec![];
+        for _ in 0..n_alts {
+            if r.chance(1, 2) {
+                alts.push(format!("{:?}", *r.pick(&["\n", "ab", "-", "q", "\r\n"])));
+            } else {
+                // any rule of the chain, itself included
+                let j = if r.chance(1, 3) { i } else { r.below(names.len()) };
+                alts.push(names[j].to_string());
+            }
+        }
+        let m = *r.pick(&["", "", "_", "@"]);
+        out.push_str(&format!("{n} = {m}{{ {} }}\n", alts.join(" | ")));
+    }
+    out
 }
